@@ -139,6 +139,54 @@ Theorem C17_take_first_unrepaired_pos : forall s n, 1 <= n -> take_first_orig s 
 Proof. exact take_first_orig_pos. Qed.
 Print Assumptions C17_take_first_unrepaired_pos.
 
+(* ---- yields that are not Values: None ("nothing to wait for"), futures, tuples / lists / dicts of
+   them (Gen.aw, Gen.unwrap, tree step NYield).  C17_nested_values / C17_nested_list_take above
+   quantify over tree bodies that contain them (tclean1 (NYield w) = "no member of w fails",
+   tvalues1 (NYield w) = []).  The theorems below say that such a yield is never mistaken for the
+   end of the generator, and that the end is signalled only at the end. *)
+
+(* a body that yields w (None included) where a Value or the end could be: send hands out a task
+   waiting for unwrap w, resumes the body with None exactly once, and does not flag exhaustion *)
+Theorem C17_yield_not_exhaustion : forall s w b,
+  rest s = yield_step w :: b -> pending s = false -> is_stopped s = false ->
+  send s = (mkG b (S (pulls s)) (sent s ++ [TVal VNone]) (LPending (tres_of (unwrap w))) false, STask).
+Proof. exact yield_not_exhaustion. Qed.
+Print Assumptions C17_yield_not_exhaustion.
+
+(* StopIteration out of send/next means the body has nothing left (a body cannot raise
+   StopIteration itself, PEP 479), in every reachable state *)
+Theorem C17_stop_only_when_exhausted : forall s,
+  wf s -> pending s = false -> snd (send s) = SRaise E_STOPITER ->
+  rest s = [] \/ exists b, rest s = GRaise E_STOPITER :: b.
+Proof. exact stop_only_when_exhausted. Qed.
+Print Assumptions C17_stop_only_when_exhausted.
+
+(* a task handed out by the generator computes to END_OF_GENERATOR only by running the body to its
+   end (and then the generator is flagged): never in the middle of the stream *)
+Theorem C17_end_only_when_exhausted : forall s,
+  pending s = true -> snd (compute s) = TEnd ->
+  rest (fst (compute s)) = [] /\ is_stopped (fst (compute s)) = true.
+Proof. exact end_only_when_exhausted. Qed.
+Print Assumptions C17_end_only_when_exhausted.
+
+(* for list_of_generator / take_first a tree body with any non-failing None / future / container
+   yields, nested to any depth, is the body that yields just its Values *)
+Theorem C17_only_values_matter : forall b n,
+  forallb tclean1 b = true ->
+  let b' := map NValue (flat_map tvalues1 b) in
+  snd (list_of_generator (init (inline b))) = snd (list_of_generator (init (inline b'))) /\
+  snd (take_first (init (inline b)) n) = snd (take_first (init (inline b'))  n).
+Proof. exact only_values_matter. Qed.
+Print Assumptions C17_only_values_matter.
+
+Example C17_example_yields :
+  let b := example_yields in
+  forallb tclean1 b = true /\
+  snd (list_of_generator (init (inline b))) = LOk [TVal (VInt 1); TVal (VInt 2); TVal (VInt 3)] /\
+  snd (take_first (init (inline b)) 2) = LOk [TVal (VInt 1); TVal (VInt 2)] /\
+  snd (send (init (inline b))) = STask /\ is_stopped (fst (send (init (inline b)))) = false.
+Proof. exact example_yields_ok. Qed.
+
 (* hypotheses are satisfiable, and the theorems compute *)
 Example C17_example :
   let b := example_body in
